@@ -35,6 +35,16 @@ def baseline_abstraction():
     return _baseline
 
 
+# library contracts that OVER-approximate numpy (a sum known only through bounds, a count through a few axioms, a generic ndarray method, an
+# unconstrained random stream, 'may return the same object'): a counter-model that newly passes through one of these may be spurious. All other
+# contracts in pyvc/lib.py state the exact elementwise / positional semantics, so a counter-model through them is a real behaviour.
+WEAK_CONTRACT_MARKS = ("np.sum", "np.nansum", "assumed NaN-free", "numpy ndarray method", "RandomState model", "check_array", "validation only")
+
+
+def weak_contract(tag):
+    return any(m in tag for m in WEAK_CONTRACT_MARKS)
+
+
 _loops = None
 
 
@@ -82,7 +92,7 @@ def se_unit(name, file, qualname, cls, setup, post, loop_specs=None, inline=(), 
         if base is not None:
             # footprint = calls abstracted to unknown values + library contracts relied upon; a counter-model found on a tree whose
             # footprint grew may rest on a contract that was never exercised (or is too weak) for this unit: undecided, not a violation
-            new = sorted((set(res["abstracted"]) | {"lib:" + x for x in res["lib"]}) - set(base))
+            new = sorted((set(res["abstracted"]) | {"lib:" + x for x in res["lib"] if weak_contract(x)}) - set(base))
             if new:
                 res["new_abstraction"] = new
         obs = []
